@@ -172,22 +172,26 @@ theorem kh_bigraded_iff (f : Feat) (ct : CType) (o : Opts) (lk : LinkClass) (r :
 
 /-- `poly_vars` looks only at whole `,`-separated pieces. -/
 theorem polyVars_spec (c : String) :
-    (polyVars c = .H ∨ polyVars c = .HT ↔ "H" ∈ c.splitOn ",") ∧
-    (polyVars c = .T ∨ polyVars c = .HT ↔ "T" ∈ c.splitOn ",") := by
+    (polyVars c = .H ∨ polyVars c = .HT ↔ ['H'] ∈ splitOnChar ',' c.toList) ∧
+    (polyVars c = .T ∨ polyVars c = .HT ↔ ['T'] ∈ splitOnChar ',' c.toList) := by
   unfold polyVars
   constructor <;>
-  · cases h1 : (c.splitOn ",").contains "H" <;> cases h2 : (c.splitOn ",").contains "T" <;>
-      simp_all [List.contains_iff_mem]
+  · cases h1 : (splitOnChar ',' c.toList).contains ['H'] <;> cases h2 : (splitOnChar ',' c.toList).contains ['T'] <;>
+      simp_all
 
 /-! ### P1 — a printed cell determines the group -/
 
-/-- `rmod_str` is injective on (rank, sorted torsion texts), for the ring symbols and torsion texts that occur
-(no blank-`⊕`-blank, parenthesis-balanced enough: see `CellOK`): a verified reader `readCell` inverts it. -/
+/-- A verified reader inverts `rmod_str`: for a ring symbol that does not start with `(` or `0` and texts without
+`⊕` (all symbols `Z, Q, F₂, F₃, Z[i], Z[√-3], R[H], R[T], R[H, T]` and all coefficient texts are such),
+`readCell` recovers the rank and the run-length encoding of the sorted torsion texts from the cell text.
+The harness applies the same reading to the cells of the real tables, and the driver runs `rmodStr` against the
+real `rmod_str`. -/
 theorem rmodStr_readback (sym : List Char) (rank : Nat) (tors : List (List Char))
     (hs : SymOK sym) (ht : ∀ t ∈ tors, TorOK t) :
     readCell sym (rmodStr sym rank tors) = some (rank, runs tors) :=
   readCell_rmodStr sym rank tors hs ht
 
+/-- `rmod_str` is injective on (rank, sorted torsion multiset): a printed cell determines the group. -/
 theorem rmodStr_injective (sym : List Char) (r1 r2 : Nat) (t1 t2 : List (List Char))
     (hs : SymOK sym) (h1 : ∀ t ∈ t1, TorOK t) (h2 : ∀ t ∈ t2, TorOK t)
     (h : rmodStr sym r1 t1 = rmodStr sym r2 t2) : r1 = r2 ∧ t1 = t2 := by
@@ -197,5 +201,23 @@ theorem rmodStr_injective (sym : List Char) (r1 r2 : Nat) (t1 t2 : List (List Ch
   injection e1 with e1
   injection e1 with ha hb
   exact ⟨ha.symm, runs_injective _ _ hb.symm⟩
+
+/-- a zero group is printed as `0` (which the table shows as `.`), and nothing else is -/
+theorem rmodStr_zero_iff (sym : List Char) (rank : Nat) (tors : List (List Char))
+    (hs : SymOK sym) (ht : ∀ t ∈ tors, TorOK t) :
+    rmodStr sym rank tors = ['0'] ↔ rank = 0 ∧ tors = [] := by
+  constructor
+  · intro h
+    have e := readCell_rmodStr sym rank tors hs ht
+    rw [h] at e
+    simp [readCell] at e
+    refine ⟨e.1.symm, ?_⟩
+    have := expand_runs tors
+    rw [e.2] at this
+    exact this.symm
+  · intro ⟨h1, h2⟩; simp [rmodStr, h1, h2]
+
+example : SymOK "Z".toList ∧ SymOK "F₂[H]".toList ∧ TorOK "H²".toList :=
+  ⟨⟨⟨'Z', [], rfl, by decide, by decide⟩, by decide⟩, ⟨⟨'F', _, rfl, by decide, by decide⟩, by decide⟩, by unfold TorOK; decide⟩
 
 end Yuiv.C20
